@@ -3,18 +3,19 @@
 set -u
 ROOT="${VERIF_ROOT:-/verif}"
 TGT="${CARGO_TARGET_DIR:-$ROOT/target}"
-mkdir -p "$ROOT/work/bin"
+BIN="$TGT/vf-conc-bin"   # beside the build output, so that runs with different target dirs do not share binaries
+mkdir -p "$BIN"
 cd "$ROOT/harness"
 LOG="$ROOT/work/build-vf-conc.log"
 cargo build --profile vf -p vf-conc >"$LOG" 2>&1 || { echo "INCONCLUSIVE: serial build failed (see $LOG)"; tail -20 "$LOG"; exit 2; }
-cp "$TGT/vf/vf-conc" "$ROOT/work/bin/vf-conc-serial" || exit 2
+cp "$TGT/vf/vf-conc" "$BIN/vf-conc-serial" || exit 2
 cargo build --profile vf -p vf-conc --features concurrent >>"$LOG" 2>&1 || { echo "INCONCLUSIVE: concurrent build failed (see $LOG)"; tail -20 "$LOG"; exit 2; }
-cp "$TGT/vf/vf-conc" "$ROOT/work/bin/vf-conc-par" || exit 2
-export VF_CONC_PAR="$ROOT/work/bin/vf-conc-par"
+cp "$TGT/vf/vf-conc" "$BIN/vf-conc-par" || exit 2
+export VF_CONC_PAR="$BIN/vf-conc-par"
 if [ "${1:-}" = "--build-only" ]; then
   exit 0
 fi
 if [ "${1:-}" = "--replay" ]; then
-  exec "$ROOT/work/bin/vf-conc-serial" --replay "$2"
+  exec "$BIN/vf-conc-serial" --replay "$2"
 fi
-exec "$ROOT/work/bin/vf-conc-serial" "$1" "${2:-quick}"
+exec "$BIN/vf-conc-serial" "$1" "${2:-quick}"
